@@ -31,7 +31,7 @@ build_cache() {
 }
 build_world() {
   if [ -d sim/sim_world ]; then
-    for v in ssr fx dyn nc; do
+    for v in ssr fx dyn nc ax; do
       (cd sim/sim_world && quiet cargo build --release --offline --features "world_${v}") || fail "sim_world ${v}"
       cp -f target/release/sim_world "bin/world_${v}" || fail "copy world_${v}"
     done
